@@ -251,6 +251,14 @@ async def one_schema(chk, rng, idx, lines, expect):
         await a.login(caps=int(BASE) | WITH_DB, db=cur)
     import copy
     desc = dict(schema_index=idx, seed=chk.seed, depth=depth, mapping=copy.deepcopy(mapping), current_db=cur, fresh_copy_per_call=app.fresh)
+    if rng.random() < 0.4:
+        # session settings clients make for their SELECTs (row limits, modes, timeouts) are no part of the declared schema: the
+        # catalog answers are the same with and without them
+        setting = rng.choice(["SET sql_select_limit = 1", "SET sql_select_limit = 2", "SET SESSION sql_select_limit = 3", "SET sql_mode = 'TRADITIONAL'",
+                              "SET max_execution_time = 1", "SET sql_auto_is_null = 1, sql_select_limit = 2"])
+        await run(a, setting)
+        desc["session_setting"] = setting
+        chk.count("with-session-setting")
     lines.append("cat load " + " ".join(tokens(canon)))
     expect.append(("load", desc, None, None))
     chk.count("depth:%d" % depth)
